@@ -1224,13 +1224,20 @@ func (r *RIBHolder) GetNextHopGroup(id uint64) (*aft.Afts_NextHopGroup, bool) {
 
 // candidateRIB takes the input set of Afts and returns them as a aft.RIB pointer
 // that can be merged into an existing RIB.
-func candidateRIB(a *aftpb.Afts) (*aft.RIB, error) {
+func candidateRIB(a *aftpb.Afts) (nr *aft.RIB, err error) {
+	// The protobuf is untrusted input, and the conversion libraries can panic on
+	// values that are outside the schema (e.g., undefined enum numbers).
+	defer func() {
+		if p := recover(); p != nil {
+			nr, err = nil, fmt.Errorf("invalid entry provided, cannot convert %s: %v", a, p)
+		}
+	}()
 	paths, err := protomap.PathsFromProto(a)
 	if err != nil {
 		return nil, err
 	}
 
-	nr := &aft.RIB{}
+	nr = &aft.RIB{}
 	for p, v := range paths {
 		sv, err := value.FromScalar(v)
 
